@@ -24,7 +24,9 @@ RULE = (
     "file, touch, make the cache older, 'pglr compile' (force_create), truncate the .pgc to k bytes (crash point), kill a real writer "
     "process after k bytes}; after every construction the table (captured by the create_load_table monitor) and probe parses are "
     "compared with a parser built in a fresh directory without any cache; mtimes are driven by a logical clock; plus save/load "
-    "round trips over random grammars x options (serialisable equality, conflicts, dynamic marks, byte-identical re-save). "
+    "round trips over random grammars x options (serialisable equality, conflicts, dynamic marks, byte-identical re-save); plus "
+    "histories over a directory with error examples (root.pge): construct, edit root / imported file / examples, touch, age or "
+    "truncate the .pgec - SyntaxError.hint of probe parses equals that of the same constructor in a fresh directory. "
     "Non-trivial = construction that found a .pgc on disk (fresh, stale, foreign or truncated) or a round trip of a table with "
     ">= 4 states; distinct = (directory content, cache state, constructor options)."
 )
@@ -72,6 +74,12 @@ def plan(tier):
 
 def required(tier):
     return {
+        "hints.constructions_compared": 300,
+        "hints.cache_reused": 50,
+        "hints.cache_written": 100,
+        "hints.probes_with_hint": 500,
+        "hints.op.edit_import": 20,
+        "hints.op.truncate": 20,
         "nontrivial": 600 if tier == "quick" else 6000,
         "ctor.loaded": 300,
         "ctor.created": 300,
@@ -320,6 +328,8 @@ def run(ctx):
             n += 1
             if n % 3 == 0:
                 roundtrips(ctx)
+            elif n % 5 == 0:
+                hint_history(ctx)
             else:
                 history(ctx, mon, oracle)
         if ctx.mine(0) or ctx.mine(7) or ctx.tier == "thorough":
@@ -460,6 +470,156 @@ def do_construct(ctx, mon, oracle, d, kind, kw, inputs, ops, ops_log, truncated=
         sig = "behaviour-differs-from-no-cache"
     ctx.violation(sig, case, detail, known=known)
     return known is not None
+
+
+# --- the error-hint cache (.pgec next to a .pge file) follows the same pattern ---------
+
+HINT_ROOTS = [
+    'import "base.pg";\nE: E "+" E {left, 1} | E "*" E {left, 2} | base.N | "(" E ")";',
+    'import "base.pg";\nE: E "+" T | T;\nT: T "*" F | F;\nF: base.N | "(" E ")";',
+    'import "base.pg";\nE: T "+" E | T;\nT: base.N "*" T | base.N | "(" E ")";',
+    'import "base.pg" as b;\nE: E "+" E {right, 1} | E "*" E {left, 1} | b.N | "(" E ")";',
+]
+HINT_BASES = ['N: "n";', 'N: "n" | "m" "n";', 'N: M;\nM: "n" | "m";', 'N: x;\nterminals\nx: /n/;']
+HINT_EXAMPLES = [("n + * n", True), ("(n + n", False), ("n + n)", True), ("n + n n", True), ("n +", False), ("* n", True)]
+HINT_PROBES = ["n + * n", "(n + n", "n + n)", "n n", "n +", "* n", "n * + n", "((n)", "n + (", ")", "n * n n", "n + n", "(n)*n"]
+
+
+def pge_text(rng, version):
+    ex = rng.sample(HINT_EXAMPLES, rng.randint(2, len(HINT_EXAMPLES)))
+    parts = []
+    for i, (src, la) in enumerate(ex):
+        parts.append("%s\n:::%s\nhint %d of version %d for %s\n" % (src, "+" if la else "", i, version, src))
+    return "\n=====\n".join(parts)
+
+
+def hint_probe(parser, kind):
+    out = []
+    for w in HINT_PROBES:
+        try:
+            with pgx.quiet():
+                parser.parse(w)
+            out.append((w, "accepted"))
+        except parglare.SyntaxError as e:
+            out.append((w, e.location.start_position, getattr(e, "hint", None)))
+        except (pgx.CaseTimeout, pgx.BudgetExceeded):
+            raise
+        except Exception as e:  # noqa: BLE001
+            out.append((w, "exc", type(e).__name__))
+    return out
+
+
+def hint_construct(path, kind, kw):
+    kwargs = dict(kw)
+    if "tables" in kwargs:
+        kwargs["tables"] = pgx.SLR if kwargs["tables"] == "SLR" else pgx.LALR
+    try:
+        with pgx.quiet():
+            g = parglare.Grammar.from_file(path)
+            p = parglare.Parser(g, **kwargs) if kind == "Parser" else parglare.GLRParser(g, **kwargs)
+        return p, None
+    except (pgx.CaseTimeout, pgx.BudgetExceeded):
+        raise
+    except Exception as e:  # noqa: BLE001
+        return None, e
+
+
+def hint_history(ctx):
+    """Histories over a directory that also holds error examples (root.pge): after every
+    construction SyntaxError.hint of probe parses equals what the same constructor gives in
+    a fresh copy of the directory without any cache.  One parser configuration per history
+    (the configuration is not part of any cache key: KF-C12-1, judged on the table cache)."""
+    rng = ctx.rng
+    kind, kw = rng.choice([("Parser", {}), ("Parser", {}), ("GLRParser", {}), ("Parser", {"tables": "SLR"}), ("Parser", {"prefer_shifts": False, "prefer_shifts_over_empty": False})])
+    d = Dir(ctx)
+    pge = os.path.join(d.path, "root.pge")
+    pgec = os.path.join(d.path, "root.pgec")
+    version = [0]
+    texts = {}
+
+    def write_pge():
+        version[0] += 1
+        texts["pge"] = pge_text(rng, version[0])
+        with open(pge, "w") as f:
+            f.write(texts["pge"])
+        t = d.tick()
+        os.utime(pge, (t, t))
+
+    log = []
+    try:
+        d.write("base", rng.choice(HINT_BASES))
+        d.write("root", rng.choice(HINT_ROOTS))
+        write_pge()
+        for step in range(rng.randint(3, 7)):
+            r = rng.random()
+            op = "construct" if step == 0 or r < 0.45 else rng.choice(["edit_root", "edit_import", "edit_examples", "touch", "older", "truncate"])
+            if op == "edit_root":
+                d.write("root", rng.choice(HINT_ROOTS))
+            elif op == "edit_import":
+                d.write("base", rng.choice(HINT_BASES))
+            elif op == "edit_examples":
+                write_pge()
+            elif op == "touch":
+                d.touch(rng.choice(["root", "base"]))
+            elif op == "older":
+                if os.path.exists(pgec):
+                    os.utime(pgec, (1, 1))
+            elif op == "truncate":
+                if os.path.exists(pgec):
+                    data = open(pgec, "rb").read()
+                    k = int(rng.choice([0.0, 0.3, 0.6, 0.95]) * len(data))
+                    with open(pgec, "wb") as f:
+                        f.write(data[:k])
+                    t = d.tick()
+                    os.utime(pgec, (t, t))
+                    op = "truncate .pgec to %d of %d bytes" % (k, len(data))
+            log.append(op)
+            ctx.count("hints.op." + op.split(" ")[0])
+            if not op.startswith("truncate") and op != "construct":
+                continue
+            # construct + probe, against a fresh directory
+            had_cache = os.path.exists(pgec)
+            before = (os.stat(pgec).st_mtime_ns, open(pgec, "rb").read()) if had_cache else None
+            try:
+                with pgx.watchdog(60):
+                    p, exc = hint_construct(d.root, kind, kw)
+                    got = ("ctor", type(exc).__name__) if exc is not None else hint_probe(p, kind)
+                    tmp = tempfile.mkdtemp(prefix="pgv-c12h-")
+                    try:
+                        for which in ("root", "base"):
+                            with open(os.path.join(tmp, which + ".pg"), "w") as f:
+                                f.write(d.texts[which])
+                        with open(os.path.join(tmp, "root.pge"), "w") as f:
+                            f.write(texts["pge"])
+                        p2, exc2 = hint_construct(os.path.join(tmp, "root.pg"), kind, kw)
+                        want = ("ctor", type(exc2).__name__) if exc2 is not None else hint_probe(p2, kind)
+                    finally:
+                        shutil.rmtree(tmp, ignore_errors=True)
+            except (pgx.CaseTimeout, pgx.BudgetExceeded):
+                ctx.inconc("timeout in hint history %s" % log[-3:])
+                return
+            if os.path.exists(pgec):
+                after = (os.stat(pgec).st_mtime_ns, open(pgec, "rb").read())
+                if after != before:
+                    t = d.tick()
+                    os.utime(pgec, (t, t))
+                    ctx.count("hints.cache_written")
+                elif had_cache:
+                    ctx.count("hints.cache_reused")
+            if os.path.exists(d.pgc):
+                d.stamp_pgc()
+            nh = sum(1 for x in want if len(x) == 3 and x[1] != "exc" and x[2]) if isinstance(want, list) else 0
+            ctx.count("hints.probes_with_hint", nh)
+            ctx.case((d.content_key(), texts["pge"], kind, json.dumps(kw, sort_keys=True), tuple(log)), had_cache, sample={"history": list(log), "root": d.texts["root"], "base": d.texts["base"], "parser": kind, "options": kw})
+            ctx.count("hints.constructions_compared")
+            if got != want:
+                diff = [(a, b) for a, b in zip(got, want) if a != b][:2] if isinstance(got, list) and isinstance(want, list) else [(got, want)]
+                case = {"hints": True, "history": list(log), "root": d.texts["root"], "base": d.texts["base"], "pge": texts["pge"], "parser": kind, "options": kw}
+                sig = "hint-cache-undecodable-raises" if isinstance(got, tuple) and got[0] == "ctor" and not (isinstance(want, tuple) and want[0] == "ctor") else "hints-differ-from-no-cache"
+                ctx.violation(sig, case, "after %s: with the directory's caches %s, in a fresh directory %s" % (log[-4:], str(diff)[:300], ""))
+                return
+    finally:
+        d.remove()
 
 
 def before_writer(d, after, before):
